@@ -46,6 +46,8 @@ async def stopper(*args, **kwargs):
     return await sim.worker_body("stopper", args, kwargs)
 
 
+from .ctlpkg import nightly  # noqa: E402,F401  (the function, re-exported by the package; see tpsim/ctlpkg/__init__.py)
+
 alias = work        # rebound between `work` and `job` by the simulation's "rebind" step
 
 
